@@ -217,9 +217,29 @@ Definition parse_defined_names (rgce : list N) : outcome (option N * list N) :=
       else Ok (None, lit "Unsupported ptg: " ++ hex_lower ptg)
   end.
 
+(* const BUILTIN_NAMES: [&str; 14] — the built-in defined names by id (commit "fix: xls built-in
+   defined names were reported as their one-byte id …") *)
+Definition BUILTIN_NAMES : list (list N) :=
+  [lit "Consolidate_Area"; lit "Auto_Open"; lit "Auto_Close"; lit "Extract"; lit "Database";
+   lit "Criteria"; lit "Print_Area"; lit "Print_Titles"; lit "Recorder"; lit "Data_Form";
+   lit "Auto_Activate"; lit "Auto_Deactivate"; lit "Sheet_Title"; lit "_FilterDatabase"].
+
+(*  if r.data[0] & 0x20 != 0 {                     // fBuiltin
+        let mut id = name.chars();
+        if let (Some(c), None) = (id.next(), id.next()) {
+            if let Some(b) = BUILTIN_NAMES.get(c as usize) { name = format!("_xlnm.{b}"); } } }  *)
+Definition builtin_fix (flags0 : N) (name : list N) : list N :=
+  if N.testbit flags0 5 then
+    match name with
+    | [c] => match nthN BUILTIN_NAMES c with Some b => lit "_xlnm." ++ b | None => name end
+    | _ => name
+    end
+  else name.
+
 (*  0x0018 => { if r.data.len() < 14 { Err }; let cch = r.data[3] as usize;
         let cce = read_u16(&r.data[4..]) as usize; if r.data.len() < 14 + cce { Err };
         read_unicode_string_no_cch(&encoding, &r.data[14..], &cch, &mut name);
+        [builtin_fix: a built-in name's one-character id becomes _xlnm.<Name>]
         let rgce = &r.data[r.data.len() - cce..];
         let formula = parse_defined_names(rgce)?; defined_names.push((name, formula)); }  *)
 Definition xls_lbl (data : list N) : outcome (list N * ((option N * list N) * list N)) :=
@@ -228,7 +248,7 @@ Definition xls_lbl (data : list N) : outcome (list N * ((option N * list N) * li
   do cce <- u16_at data 4;
   if (length data <? 14 + N.to_nat cce)%nat then Err E_LEN else
   do d14 <- drop 14 data;
-  let name := unicode_no_cch d14 (N.to_nat cch) in
+  let name := builtin_fix (nth 0 data 0) (unicode_no_cch d14 (N.to_nat cch)) in
   let rgce := skipn (length data - N.to_nat cce) data in
   do f <- parse_defined_names rgce;
   Ok (name, (f, rgce)).                       (* defined_names.push((name, formula, rgce.to_vec())) *)
@@ -273,7 +293,7 @@ Fixpoint xls_globals (recs : list record) (names : list raw_name) (xtis : list (
 Definition xls_name_text (sheets : list (list N)) (xtis : list (N * N * N)) (f : option N * list N) : list N :=
   match fst f with
   | None => snd f
-  | Some i => sheet_name_xls {| xe_sheets := sheets; xe_names := []; xe_xtis := xtis |} i ++ [ch_bang] ++ snd f
+  | Some i => sheet_name_xls {| xe_sheets := sheets; xe_names := []; xe_xtis := xtis; xe_base := None |} i ++ [ch_bang] ++ snd f
   end.
 
 (* after the loop (fix of K_XLS_NAME_FORMULA): the whole formula is decoded with the cell-formula
@@ -286,7 +306,7 @@ Variable show_f64 : N -> list N.
 
 Definition xls_final_name (sheets : list (list N)) (xtis : list (N * N * N)) (names : list (list N))
   (n : raw_name) : outcome (list N * list N) :=
-  match xls_parse_formula show_f64 {| xe_sheets := sheets; xe_names := names; xe_xtis := xtis |}
+  match xls_parse_formula show_f64 {| xe_sheets := sheets; xe_names := names; xe_xtis := xtis; xe_base := None |}
           (frame_xls (snd (snd n))) with
   | Ok full => Ok (fst n, full)
   | Err _ => Ok (fst n, xls_name_text sheets xtis (fst (snd n)))
@@ -316,9 +336,31 @@ Record lbl_rec := {
   lb_chkey : N;
   lb_itab : N;
   lb_wide : bool;               (* fHighByte of the name *)
-  lb_name : list N;             (* a built-in name is the one-character string holding its code *)
+  lb_name : list N;             (* the STORED string: for a built-in name (fBuiltin) the one-character
+                                   string holding its id *)
   lb_rgce : list N
 }.
+(* SPEC: the built-in names, MS-XLS 2.5.114 (ids 0x00 .. 0x0D); as a defined name of the workbook a
+   built-in name is "_xlnm." followed by this text — the string xlsx (definedName/@name,
+   ECMA-376 18.2.5) and xlsb (BrtName.name) store for the same name *)
+Definition builtin_name (id : N) : option (list N) :=
+  match id with
+  | 0x00 => Some (lit "Consolidate_Area") | 0x01 => Some (lit "Auto_Open") | 0x02 => Some (lit "Auto_Close")
+  | 0x03 => Some (lit "Extract") | 0x04 => Some (lit "Database") | 0x05 => Some (lit "Criteria")
+  | 0x06 => Some (lit "Print_Area") | 0x07 => Some (lit "Print_Titles") | 0x08 => Some (lit "Recorder")
+  | 0x09 => Some (lit "Data_Form") | 0x0A => Some (lit "Auto_Activate") | 0x0B => Some (lit "Auto_Deactivate")
+  | 0x0C => Some (lit "Sheet_Title") | 0x0D => Some (lit "_FilterDatabase")
+  | _ => None
+  end.
+(* the name a Lbl record defines: fBuiltin (bit 5 of the flags) and a one-character string holding a
+   known id: the built-in name; anything else (also an unknown id): the stored string *)
+Definition lb_logical (d : lbl_rec) : list N :=
+  if N.testbit (lb_flags d) 5 then
+    match lb_name d with
+    | [c] => match builtin_name c with Some b => lit "_xlnm." ++ b | None => lb_name d end
+    | _ => lb_name d
+    end
+  else lb_name d.
 Definition enc_lbl (d : lbl_rec) : list N :=
   le 2 (lb_flags d) ++ [lb_chkey d] ++
   [if lb_wide d then N.of_nat (length (utf16_units (lb_name d))) else N.of_nat (length (lb_name d))] ++
@@ -365,7 +407,7 @@ Fixpoint spec_lbls (ds : list lbl_rec) : outcome (list raw_name) :=
   match ds with
   | [] => Ok []
   | d :: t => do f <- parse_defined_names (lb_rgce d); do r <- spec_lbls t;
-              Ok ((lb_name d, (f, lb_rgce d)) :: r)
+              Ok ((lb_logical d, (f, lb_rgce d)) :: r)
   end.
 
 (* ================================================================== formula ranges ==== *)
